@@ -32,6 +32,9 @@ CLAIMED = {
             "Area = count x voxel and centroid x scale recomputed IN TLA+ from the real label array and compared with the stored attribute values (isotropic, anisotropic, no scale)."),
     "C09": ("model_checking", "TLC model check with segmentation + catalogue replay + TLC recomputes |A and B| / |A or B| from the recorded real array as exact rationals",
             "IoU recomputed in TLA+ for every edge (incl. frame-skipping) after every call, undo, redo; incremental path."),
+    "C10": ("model_checking", "TLA+ model of enable_features/disable_features (activation table, registry, bulk recomputation) checked by TLC; catalogue replay with "
+            "enable/disable calls interleaved with edits; TLC trace evaluation of reference values, registry, disabled-feature frame clause, KeyError clause and protected keys",
+            "Every subset mask of the available keys (plus an unknown key) is fired from every catalogue state of suites that interleave switching with edits; shape features through from-scratch digests."),
     "C11": ("model_checking", "TLC exhaustive model check + catalogue replay + TLC trace evaluation of FullEq(pre, post) and empty emissions on refused calls",
             "The whole alphabet (enabled or not) is fired from every catalogue state, so every refused (state, call) pair of the universe is covered."),
     "C20": ("model_checking", "TLC exhaustive model check + catalogue replay + TLC trace evaluation of the recorded refresh emissions",
